@@ -1286,7 +1286,38 @@ impl SparqlDatabase {
     pub fn parse_n3(&mut self, n3_data: &str) {
         let lines: Vec<String> = n3_data.lines().map(|l| l.trim().to_string()).collect();
         let chunk_size = 1000;
-        let chunks: Vec<Vec<String>> = lines.chunks(chunk_size).map(|c| c.to_vec()).collect();
+
+        // Cut chunks only between statements, and record for every chunk the
+        // prefix declarations made before it.
+        let declaration = |line: &str| -> Option<(String, String)> {
+            let line = line.split('#').next().unwrap_or("").trim();
+            let line = line.strip_prefix("@prefix")?.trim_end_matches('.');
+            let mut parts = line.split_whitespace();
+            let prefix = parts.next()?.trim_end_matches(':').to_string();
+            let uri = parts.next()?;
+            Some((prefix, uri.trim_start_matches('<').trim_end_matches('>').to_string()))
+        };
+        let mut chunks: Vec<(Vec<String>, HashMap<String, String>)> = Vec::new();
+        let mut current: Vec<String> = Vec::new();
+        let mut prefixes_so_far: HashMap<String, String> = HashMap::new();
+        let mut prefixes_at_chunk_start = prefixes_so_far.clone();
+        let mut statement_open = false;
+        for line in lines {
+            let code = line.split('#').next().unwrap_or("").trim();
+            if let Some((prefix, uri)) = declaration(&line) {
+                prefixes_so_far.insert(prefix, uri);
+            } else if !code.is_empty() {
+                statement_open = !code.ends_with('.');
+            }
+            current.push(line);
+            if current.len() >= chunk_size && !statement_open {
+                chunks.push((std::mem::take(&mut current), prefixes_at_chunk_start));
+                prefixes_at_chunk_start = prefixes_so_far.clone();
+            }
+        }
+        if !current.is_empty() {
+            chunks.push((current, prefixes_at_chunk_start));
+        }
 
         let partial_results: Vec<(
             Vec<Triple>,
@@ -1294,8 +1325,9 @@ impl SparqlDatabase {
             HashMap<String, String>,
         )> = chunks
             .par_iter()
-            .map(|chunk| {
+            .map(|(chunk, inherited_prefixes)| {
                 let mut local_db = SparqlDatabase::new();
+                local_db.prefixes = inherited_prefixes.clone();
                 let mut statement = String::new();
 
                 for raw_line in chunk {
